@@ -4,6 +4,7 @@
 
 #include <cstdint>
 #include <cstdio>
+#include <cstdlib>
 #include <cstring>
 #include <iostream>
 #include <limits>
@@ -90,6 +91,7 @@ static bool mem(W x, const range_t<T>& r)
     return (W)r.first() <= x && x <= (W)r.last();
 }
 
+static int WINDOW = 12;
 static void oracle_int8()
 {
     using T = int8_t;
@@ -153,7 +155,7 @@ static void oracle_int8()
                 }
             }
     // interval x interval: all a<=b, c<=d over a window (full int8 would be 2^30 pairs), results in int
-    const int wl = -12, wh = 12;
+    const int wl = -WINDOW, wh = WINDOW;
     for (int a = wl; a <= wh; ++a)
         for (int b = a; b <= wh; ++b)
             for (int c = wl; c <= wh; ++c)
@@ -254,6 +256,7 @@ int main(int argc, char** argv)
 {
     if (argc > 1 && !std::strcmp(argv[1], "ops"))
         return ops();
+    if (argc > 2) WINDOW = std::atoi(argv[2]);
     oracle_int8();
     {
         using N = std::numeric_limits<int32_t>;
